@@ -91,6 +91,7 @@ impl IdLayer {
     pub open spec fn same_but(&self, o: IdLayer, f: int) -> bool {
         (f == 0 || self.s_uuid() == o.s_uuid()) && (f == 1 || self.d_uuid() == o.d_uuid()) && (f == 2 || self.ts_max() == o.ts_max()) && (f == 3 || self.key_handles() == o.key_handles()) && (f == 4 || self.raw() == o.raw())
     }
+    #[verifier::external_body] pub fn get_identry(&mut self, l: &IdList) -> (r: Result<Vec<KvxStoredEntry>, OperationError>) ensures *final(self) == *old(self) { unimplemented!() }
     #[verifier::external_body] pub fn write_db_s_uuid(&mut self, u: Uuid) -> (r: Result<(), OperationError>) ensures final(self).same_but(*old(self), 0), r is Ok ==> final(self).s_uuid() == Some(u) { unimplemented!() }
     #[verifier::external_body] pub fn write_db_d_uuid(&mut self, u: Uuid) -> (r: Result<(), OperationError>) ensures final(self).same_but(*old(self), 1), r is Ok ==> final(self).d_uuid() == Some(u) { unimplemented!() }
     #[verifier::external_body] pub fn set_db_ts_max(&mut self, t: Duration) -> (r: Result<(), OperationError>) ensures final(self).same_but(*old(self), 2), r is Ok ==> final(self).ts_max() == Some(t) { unimplemented!() }
@@ -137,11 +138,16 @@ impl Compression { pub fn best() -> (r: Compression) { Compression { o: 9 } } }
 #[verifier::external_body] #[verifier::reject_recursive_types(T)] pub struct KvxIntoIter<T> { p: core::marker::PhantomData<T> }
 impl<T> KvxIntoIter<T> { pub uninterp spec fn seq(&self) -> Seq<T>; }
 impl<T> Vec<T> { #[verifier::external_body] pub fn into_iter(self) -> (r: KvxIntoIter<T>) ensures r.seq() == self@ { unimplemented!() } }
+// an entry read back from the id layer (opaque)
+pub struct KvxStoredEntry { pub o: int }
 pub struct Ruv { pub o: u8 }
 impl Ruv {
     pub uninterp spec fn meta(&self) -> DbReplMeta;                  // the change ids the vector holds, in backup form
     #[verifier::external_body] pub fn to_db_backup_ruv(&self) -> (r: DbReplMeta) ensures r == self.meta() { unimplemented!() }
     pub uninterp spec fn restored_from(&self) -> Option<DbReplMeta>;
+    // update_entry_changestate(e) inserts every change id of the entry's change state: after it the vector is no longer known to be
+    // the restored one (nothing is assumed about what it then holds)
+    #[verifier::external_body] pub fn update_entry_changestate(&mut self, e: &KvxStoredEntry) -> (r: Result<(), OperationError>) { unimplemented!() }
     #[verifier::external_body] pub fn kvx_restore_meta(&mut self, m: DbReplMeta) -> (r: Result<(), OperationError>) ensures r is Ok ==> final(self).restored_from() == Some(m) { unimplemented!() }
 }
 // dbentries.iter().map(step).collect::<Result<Vec<_>, _>>(): the step applied to every entry in order, threading the counter
